@@ -515,6 +515,76 @@ register(Obligation(name="C19.Atoms.recenter_set_k.histories_equal_fresh", prop=
                     doc="BOUNDED: after recenter the structure factors (and everything else) are those of a fresh object at the final positions; set_k without weights gives equal weights"))
 
 
+class OccupationCounters:
+    """BOUNDED: histories over occ.bands / occ.smearing / occ.charge on built objects: fillings and the counters Nstate / Nempty equal those of a fresh object."""
+
+    def run(self):
+        from contracts.c19_replay import _scenarios
+
+        desc, bad, failed = _scenarios()[("Occupations", "fill")]()
+        return desc, bad, failed
+
+    def __call__(self, ob, tier, seed):
+        from pycv.framework import BOUNDED_OK
+
+        desc, bad, failed = self.run()
+        if failed:
+            return Result(REFUTED, backend="native", witness=dict(history=bad[0]["history"], differs=bad[0]["differs"]), replayed=True, replay_info=dict(histories=desc, failing=bad),
+                          detail=f"{bad[0]['history']}: {bad[0]['differs']} differ from a fresh object with the same final inputs ({bad[0]['counters']})")
+        return Result(BOUNDED_OK, backend="native", detail=f"bounded: {desc}")
+
+    def replay(self, wit):
+        desc, bad, failed = self.run()
+        return failed, dict(histories=desc, failing=bad)
+
+
+register(Obligation(name="C19.Occupations.counters.histories_equal_fresh", prop=PROP, engine="B", bounded=True, run=OccupationCounters(), functions=["eminus.occupations:Occupations.fill", "eminus.occupations:Occupations.smearing", "eminus.occupations:Occupations.bands"],
+                    doc="BOUNDED: after histories over extra bands, smearing switched on / off and charges (also down to no electrons) the fillings, the number of states and the number of empty states are those of a fresh object"))
+
+
+class AutomaticBandCount:
+    """BOUNDED: the band count that fill() chooses when the user set none (bands = 0) follows the electrons: after a change of the charge on a built object
+    bands / Nstate / Nempty equal those of a fresh object with that charge (the user never assigned occ.bands in either)."""
+
+    def run(self):
+        from contracts.c19_replay import _mk
+
+        bad = []
+        n = 0
+        for sym, charges in (("Ne", (-2,)), ("Ne", (2,)), ("He", (-2,)), ("Ne", (-2, 0)), ("Ne", (2, -2))):
+            a = _mk(atom=sym)
+            a.build()
+            for c in charges:
+                a.charge = c
+                a.build()
+            f = _mk(atom=sym, charge=charges[-1])
+            f.build()
+            n += 1
+            got = dict(bands=a.occ.bands, Nstate=a.occ.Nstate, Nempty=a.occ.Nempty)
+            want = dict(bands=f.occ.bands, Nstate=f.occ.Nstate, Nempty=f.occ.Nempty)
+            if got != want:
+                bad.append(dict(history=f"Atoms({sym}); build(); " + "; ".join(f"charge = {c}; build()" for c in charges), history_object=got, fresh_object=want))
+        return n, bad
+
+    def __call__(self, ob, tier, seed):
+        from pycv.framework import BOUNDED_OK
+
+        n, bad = self.run()
+        if bad:
+            return Result(REFUTED, backend="native", witness=dict(profile=" | ".join(f"{b['history']} -> bands {b['history_object']['bands']}, Nstate {b['history_object']['Nstate']}, Nempty {b['history_object']['Nempty']}" for b in bad), first=bad[0]),
+                          replayed=True, replay_info=dict(failing=bad),
+                          detail=f"automatic band count is frozen by the first fill: {'; '.join(b['history'] for b in bad)}: e.g. {bad[0]['history_object']} instead of {bad[0]['fresh_object']}")
+        return Result(BOUNDED_OK, backend="native", detail=f"bounded: {n} charge histories on objects whose band count was never assigned")
+
+    def replay(self, wit):
+        n, bad = self.run()
+        return bool(bad), dict(failing=bad)
+
+
+register(Obligation(name="C19.Occupations.bands.automatic_count_follows_the_electrons", prop=PROP, engine="B", bounded=True, run=AutomaticBandCount(), functions=["eminus.occupations:Occupations.fill", "eminus.atoms:Atoms.charge"],
+                    doc="BOUNDED: a band count chosen by fill() (the user assigned none) is not an input: after charge changes on a built object bands / Nstate / Nempty are those of a fresh object"))
+
+
 # ------------------------------------------------------------------------------------------------
 # RSCF / USCF: the spin-fixing wrappers of SCF have their own atoms setter
 # ------------------------------------------------------------------------------------------------
